@@ -182,7 +182,7 @@ class C02(core.Check):
     # -------------------------------------------------------------------- generation
     def _rich_tokens(self, rng, n):
         names = ['div', 'span', 'p', 'b', 'ul', 'li', 'a', 'DIV', 'Span', 'section', 'br', 'img', 'hr', 'input', 'BR']
-        anames = ['id', 'class', 'style', 'title', 'data-x', 'checked', 'ID', 'Title', '1x', 'a.b', 'x_y', 'href']
+        anames = ['id', 'class', 'style', 'title', 'data-x', 'checked', 'ID', 'Title', '1x', 'a.b', 'x_y', 'href', 'gr\xf6\xdfe', '\xf1', 'data-\xe9t\xe9', '_u', '-z']
         avals = ['v', '', 'a b', 'x  y ', 'color: red', 'color:red;float:left', 'two words', 'q"q', "it's", 'é', '<b>', '7', 'x\r\ny']
         toks = []
         open_names = []
